@@ -141,9 +141,10 @@ func (p *HTTPProxy) ServeHTTP(w http.ResponseWriter, r *http.Request) {
 
 	// build the real target url that is passed to the proxy
 	targetURL := &url.URL{
-		Scheme: t.URL.Scheme,
-		Host:   t.URL.Host,
-		Path:   r.URL.Path,
+		Scheme:  t.URL.Scheme,
+		Host:    t.URL.Host,
+		Path:    r.URL.Path,
+		RawPath: r.URL.RawPath, // keep the percent-encoding of the client
 	}
 	if t.URL.RawQuery == "" || r.URL.RawQuery == "" {
 		targetURL.RawQuery = t.URL.RawQuery + r.URL.RawQuery
@@ -168,6 +169,16 @@ func (p *HTTPProxy) ServeHTTP(w http.ResponseWriter, r *http.Request) {
 		if !strings.HasPrefix(targetURL.Path, "/") {
 			targetURL.Path = "/" + targetURL.Path
 		}
+		// strip the encoded path in the same way. If that is not possible
+		// the default encoding of the path is used.
+		if strings.HasPrefix(targetURL.RawPath, t.StripPath) {
+			targetURL.RawPath = targetURL.RawPath[len(t.StripPath):]
+			if !strings.HasPrefix(targetURL.RawPath, "/") {
+				targetURL.RawPath = "/" + targetURL.RawPath
+			}
+		} else {
+			targetURL.RawPath = ""
+		}
 	}
 
 	if t.PrependPath != "" {
@@ -176,6 +187,12 @@ func (p *HTTPProxy) ServeHTTP(w http.ResponseWriter, r *http.Request) {
 		// section 5.3 of RFC7230 (https://tools.ietf.org/html/rfc7230#section-5.3)
 		if !strings.HasPrefix(targetURL.Path, "/") {
 			targetURL.Path = "/" + targetURL.Path
+		}
+		if targetURL.RawPath != "" {
+			targetURL.RawPath = t.PrependPath + targetURL.RawPath
+			if !strings.HasPrefix(targetURL.RawPath, "/") {
+				targetURL.RawPath = "/" + targetURL.RawPath
+			}
 		}
 	}
 
